@@ -194,6 +194,17 @@ func GCUniverses() []*Universe {
 }
 
 // WideLowDeleted: a uint8 tree whose root is a 256-way node from which the lowest children were deleted.
+// WideFull: a 256-way node with 200 children (a traversal holds more pending entries than any fixed small stack).
+func WideFull() *Universe {
+	ops := intOps[uint8](func(k uint8) []byte { _, b := art.UnsignedBinaryKey[uint8]{}.Transform(k); return b })
+	var setup []uint8
+	for i := 0; i < 200; i++ {
+		setup = append(setup, uint8(i))
+	}
+	return NewNumUniverse("unsigned", "uint8", func() art.Tree[uint8, int] { return art.NewUnsignedBinaryTree[uint8, int]() },
+		NumSpec[uint8]{Name: "S-WIDEFULL", Setup: setup, Free: []uint8{12, 236}, Probes: []uint8{250}}, ops)
+}
+
 func WideLowDeleted() *Universe {
 	ops := intOps[uint8](func(k uint8) []byte { _, b := art.UnsignedBinaryKey[uint8]{}.Transform(k); return b })
 	var setup []uint8
